@@ -112,8 +112,8 @@ fn op_name(o: Op) -> &'static str {
         Op::BridgeUnkeyed => "bridge_to_unkeyed_target",
         Op::ClearBridge => "clear_bridge",
         Op::Close => "close",
-        Op::RecvForgedRtp => "recv_wrong_key_rtp",
-        Op::RecvForgedRtcp => "recv_wrong_key_rtcp",
+        Op::RecvForgedRtp => "recv_unauthenticated_rtp",
+        Op::RecvForgedRtcp => "recv_unauthenticated_rtcp",
     }
 }
 
@@ -484,6 +484,17 @@ impl Sys {
                     Err(e) => vh::machinery_failure(&format!("reference encrypt_rtp: {e}")),
                 };
                 self.inject(prot);
+                // second unauthenticated datagram of this step: a packet protected under the RIGHT
+                // keys for the listened-to SSRC whose authentication tag was altered in its first
+                // byte (a tag comparison that skips bytes would let it through)
+                let raw2 = plain_rtp_bytes(SSRC_IN, seq_in, ts, &secret);
+                let mut prot2 = match self.peer_ctx().encrypt_rtp(&raw2) {
+                    Ok(b) => b.to_vec(),
+                    Err(e) => vh::machinery_failure(&format!("reference encrypt_rtp: {e}")),
+                };
+                let n = prot2.len();
+                prot2[n - vh::srtp_common::rtp_tag_len(p)] ^= 0x20;
+                self.inject(prot2);
             }
             Op::RecvForgedRtcp => {
                 let raw = plain_rtcp_in(step);
@@ -495,6 +506,15 @@ impl Sys {
                     Err(e) => vh::machinery_failure(&format!("reference encrypt_rtcp: {e}")),
                 };
                 self.inject(prot);
+                // and the same compound under the RIGHT keys with the first tag byte altered
+                let mut prot2 = match self.peer_ctx().encrypt_rtcp(&raw) {
+                    Ok(b) => b.to_vec(),
+                    Err(e) => vh::machinery_failure(&format!("reference encrypt_rtcp: {e}")),
+                };
+                let n = prot2.len();
+                let tag_first = if p == SrtpProfile::AeadAes128Gcm { n - 4 - 16 } else { n - 10 };
+                prot2[tag_first] ^= 0x20;
+                self.inject(prot2);
             }
             Op::BridgeKeyed | Op::BridgeUnkeyed => {
                 let params = RtpRewriteBridgeParams {
@@ -1324,7 +1344,7 @@ fn main() {
     rep.assume("NACK/RTX retransmissions and RTCP reports leave through the same send_rtp / send_rtcp / send_rtcp_sync entry points that are enumerated here; the sender/receiver loops above them are not instantiated.");
     rep.assume("Profiles: AES_CM_128_HMAC_SHA1_80 and AEAD_AES_128_GCM (quick), plus AES_CM_128_HMAC_SHA1_32 (thorough); one packet shape per operation (20-byte payload, no extensions; RR / BYE-with-reason / SR+SDES compound RTCP). Packet-shape variation is C04/C05's dimension.");
     rep.assume("Reference tolerance: webrtc-srtp's AES-CM cipher returns an SRTCP packet whose E bit is 0 without verifying its tag, so an emitted SRTCP datagram under an AES-CM profile counts as authenticated only if its E bit is 1 and the reference then verifies the tag (these profiles always encrypt). Replay protection of the reference is off (the property does not speak about replays).");
-    rep.assume("Protected inbound datagrams are produced by webrtc-srtp under A's receive keys; 'wrong key' datagrams by webrtc-srtp under unrelated keys. Delivery of authentic traffic is counted but not judged (safety only).");
+    rep.assume("Protected inbound datagrams are produced by webrtc-srtp under A's receive keys; 'unauthenticated' steps inject two datagrams: one produced by webrtc-srtp under unrelated keys, and one produced under A's receive keys whose authentication tag was then altered in its first byte. Delivery of authentic traffic is counted but not judged (safety only).");
     rep.assume("PC-level part: one real PeerConnection per point against a bare UDP socket on 127.0.0.1 (real time, own runtime, OS-assigned ports). The peer's descriptions are hand-written (one m=audio section, the codec of the PC's offer or PCMU, a=ssrc announced); ICE checks are answered (and, when the PC is controlled, a nominating check is sent) by a harness STUN responder; the peer's DTLS side is rustrtc's own DtlsTransport spliced onto the UDP socket, and its exporter output (RFC 5764 split) is taken as the negotiated DTLS-SRTP keys; in SDES mode the keys are the two exchanged a=crypto inline keys. Emitted datagrams are verified with webrtc-srtp under those keys.");
     rep.assume("PC-level phases: cleartext is injected (3 datagrams from the negotiated remote address) before set_remote_description, right after it returns (in WebRTC mode additionally after ICE nomination while the peer withholds DTLS), or after the PeerConnection reports Connected/Failed (for 'dtls-never-completes' 250 ms after nomination; for 'no-fingerprint' after set_remote_description was refused). Sinks watched: receiver track samples, RtpObserver (registered as soon as the transport exists), a configured receiver interceptor (RTP and RTCP callbacks), the sender's RTCP subscription (the cleartext compound carries a PLI for the sender's SSRC); SR and BYE have no other public sink. Outbound stimuli: an application sample every 10 ms for the whole run, send_raw_rtp once after the terminal state, the close-time BYE. Settle time after the last stimulus and after close()/drop is 150 ms; later effects are not seen.");
     rep.assume("PC-level: an SDES answerer binds its socket only while building its answer, so to have an address for the 'before remote description' phase the harness calls the public pc.ice_transport().start_gathering() first. Dropping the last handle of a Connected PeerConnection does not close it (C17 root cause R1), so 'drop' points in Connected state exercise no close path (see pc_level_tally.points_ended_in_closed_state). A failing signature is re-run alone 3 times and reported only if it shows every time; otherwise it is listed in pc_level_flaky.");
